@@ -74,6 +74,13 @@ func main() {
 		for _, p := range model.ModelPanics {
 			r.Inconclusive("reference model panicked: " + p)
 		}
+		infraMu.Lock()
+		for what, n := range infraNotes {
+			for i := 0; i < n; i++ {
+				r.Inconclusive("infra: " + what)
+			}
+		}
+		infraMu.Unlock()
 		code = r.Finish()
 		if len(model.ModelPanics) > 0 && code == 0 {
 			code = 2
